@@ -176,7 +176,17 @@ def eng_l2(prop, tier, seed):
     return run_shards(f"{prop}-l2", cmds, 1200 if tier == "quick" else 14400)
 
 
-ENGINES = {"l1": eng_l1, "l2": eng_l2}
+def eng_key(prop, tier, seed):
+    cargo_build(["l2"])
+    n = JOBS
+    cmds = []
+    for i in range(n):
+        out = os.path.join(OUT, f"{prop}-key-{i}.json")
+        cmds.append(([bin_path("keymon"), "--out", out, "--seed", str(seed), "--shard", f"{i}/{n}", "--tier", tier], out))
+    return run_shards(f"{prop}-key", cmds, 900 if tier == "quick" else 7200)
+
+
+ENGINES = {"l1": eng_l1, "l2": eng_l2, "key": eng_key}
 
 # property -> (engines, level, rule text, assumptions)
 PROPS = {}
@@ -220,6 +230,12 @@ prop("C08", ["l1"], "exploration",
 prop("C16", ["l1", "l2"], "exploration",
      L1_RULE + "Every operation runs under catch_unwind in a build with overflow checks and debug assertions. Non-trivial/distinct = configurations of the full product visited (each with overflow-heavy histories).",
      COMMON_ASSUME, ("C16", "ops_under_catch_unwind"))
+prop("C02", ["key", "l2"], "exploration",
+     "KEY LEVEL: 29 signature shapes (1-5 arguments over integers, floats, bool, char, String, &str, tuples, Option, nested Option, Vec, slices, Debug-derived struct and enum, &self methods with string-bearing receivers), each as #[cache] and #[cache_async], bodies return a fresh serial. "
+     "Pairs of argument tuples a != b (structural/bitwise inequality, NaN excluded) are drawn from an adversarial alphabet (| \" \\ ' , ( ) [ ] space newline NUL DEL, the words Some/None, quote-separator-quote sequences), by single-position mutation, and by boundary shifting "
+     "(render two neighbouring arguments with separators '', '|', ',', ' ', '\"|\"', ', ', move the boundary, re-parse); f(a); f(b); f(a) must execute twice and serve a its own serial; every 32 pairs the number of listed key strings must equal the number of distinct tuples stored. "
+     "Non-trivial/distinct = distinct (function, a, b) pairs. " + L2_RULE + "There, a learned slot->key-string map must stay injective.",
+     COMMON_ASSUME + ["'differ' means structural inequality of the argument values (0.0 and -0.0 differ; NaN is excluded)"], ("C02", "pairs"))
 prop("C03", ["l2"], "exploration",
      L2_RULE + "Focus: functions with no limit/ttl/max_memory/cache_if/invalidate_on. Non-trivial = a repeat call for an argument tuple already stored (must not run the body; once per thread for scope=thread); at the end of every history without invalidations the execution count per distinct tuple must be exactly 1. Distinct = distinct (function, tuple, stored-before?, thread).",
      COMMON_ASSUME, ("C03", "repeat_calls_on_unbounded_caches"))
